@@ -2578,7 +2578,9 @@ class Region(_IRNode):
         # Handle cases where results may be created after their first use when walking
         # in lexicographic order.
         if clone_operands:
-            for old, new in zip(self.walk(), dest.walk()):
+            # Only walk the cloned blocks, `dest` may contain other blocks
+            new_ops = (op for new_block in new_blocks for op in new_block.walk())
+            for old, new in zip(self.walk(), new_ops):
                 new.operands = tuple(
                     value_mapper.get(operand, operand) for operand in old.operands
                 )
